@@ -42,6 +42,9 @@ FOREIGN = [
 ]
 
 
+FOREIGN_ADTS = ["std::io::ErrorKind"]
+
+
 def tree_hash(repo=None):
     repo = repo or REPO
     h = hashlib.sha256()
@@ -123,6 +126,7 @@ def extract(config, repo=None, quiet=True):
             SSFACTS_CONFIG=config,
             SSFACTS_FEATURES=",".join(CONFIGS[config]),
             SSFACTS_FOREIGN=",".join(FOREIGN),
+            SSFACTS_FOREIGN_ADTS=",".join(FOREIGN_ADTS),
         )
         env.pop("RUSTC_WRAPPER", None)
         cmd = ["cargo", "+nightly", "check", "--offline", "--lib", "--message-format", "short"]
